@@ -20,11 +20,12 @@ claim('C10', 'abstract interpretation of MIR over a finite ordering domain (exha
       'rustc front end + MIR; mirfacts; the rdv.absint interpreter and its std comparator semantics; the RxO table as transcribed in rules/C10.py; Durations normalised.',
       'DESIGN.md section 4 C10', category='proof')
 
-claim('C12', 'comparison-formula extraction (normalised relation + operand provenance) and must-pass-through / edge-cut path rules on MIR',
+claim('C12', 'comparison-formula extraction (normalised relation + operand provenance) and must-pass-through / edge-cut path rules on MIR; who-may-mutate rule with an allow-list of keyed operations on the per-participant stores',
       'Decides the shape of the lease rule, not durations: a participant reaches the removal list exactly on elapsed > lease(+tolerance) with '
       'elapsed = now - last life sign and lease = advertised | default; every accepted announcement and every liveness notification refreshes the life sign; '
       'the edge-triggered liveness channel is drained until empty; dispose removes immediately; timeout moves endpoints to the attic and rediscovery restores them; '
-      'the cleanup timer arm always re-arms. Behaviour over real time (cleanup period granularity) is not decided.',
+      'the cleanup timer arm always re-arms; every mutable access to the per-participant stores (proxies, life signs, endpoints, attic) is a single-key operation or the '
+      'prefix-range move, so handling one participant cannot lose what is remembered about another. Behaviour over real time (cleanup period granularity) is not decided.',
       'rustc front end + MIR; mirfacts; std Instant / mio timer semantics.',
       'DESIGN.md section 4 C12')
 claim('C20', 'role-pair comparison consistency (normalised S?B relations over provenance terms) + must-pass-through path rules on MIR; state pairing of the async wait future',
@@ -43,8 +44,8 @@ claim('C17', 'gating analysis: dominance / edge-cut rules over the call graph an
       'rustc front end + MIR (security feature set); mirfacts; std Option/Result::map semantics; governance attributes correct (C18); crypto plugin verifies (C16).',
       'DESIGN.md section 4 C17')
 
-claim('C16', 'must-pass-through (edge-cut with infeasible-edge pruning) and result-use rules on the security-feature MIR; provenance of the key-id comparison and of the payload framing; approved-endpoint list provenance',
-      'Also decided: the endpoint list of a decoded submessage derives from the key-id lookup and the receiver-specific MAC filter. Also decided: the header key id is compared on the single key material selected for the scope; the payload framing/footer-location facts (F15, known finding: protected payloads of length not divisible by 4 are dropped). Decides that the builtin crypto plugin cannot release data without a successful verification: in the three decode functions every value that can be a success '
+claim('C16', 'must-pass-through (edge-cut with infeasible-edge pruning) and result-use rules on the security-feature MIR; provenance of the key-id comparison and of the payload framing; approved-endpoint list provenance; clear-text header binding (dominating whole-value equality + derive/constructor facts)',
+      'Also decided: with message-level protection every Success lies behind InfoSource::from(clear-text header) == protected InfoSource (derived equality over version, vendor and prefix). Also decided: the endpoint list of a decoded submessage derives from the key-id lookup and the receiver-specific MAC filter. Also decided: the header key id is compared on the single key material selected for the scope; the payload framing/footer-location facts (F15, known finding: protected payloads of length not divisible by 4 are dropped). Decides that the builtin crypto plugin cannot release data without a successful verification: in the three decode functions every value that can be a success '
       'in a GMAC/GCM arm is defined on the Ok continuation of validate_mac/decrypt; no verification result is discarded or defaulted; the receiver-specific MAC '
       'predicate is true only without a receiver-specific key or on a MAC verified under that key, and every caller gates success on it; header kind/key id are '
       'compared with the key material. That altered bytes fail verification is a property of AES-GCM/GMAC (ring) and is assumed.',
@@ -58,10 +59,12 @@ claim('C18', 'provenance (value-is-verified chase through Result combinators), w
       'result = unprotected OR permitted. Glob/subject matching, XML parsing and the signature algorithm are assumed.',
       'rustc front end + MIR (security feature set); mirfacts; rdv.absint; std Iterator::find / Option / Result combinator semantics; ring signature verification.',
       'DESIGN.md section 4 C18')
-claim('C19', 'pairing (swap-out / write-back on every exit) and dominance (verification Ok-edges cut every path to a trusted state) rules on the security-feature MIR; accepting-state sets of the lowered state matches; GUID binding input',
+claim('C19', 'pairing (swap-out / write-back on every exit a rejected message can take) and dominance (verification Ok-edges, followed into verification closures, cut every path to a trusted state) rules on the security-feature MIR; accepting-state sets of the lowered state matches; GUID binding input; mismatch-edge reachability and echo-completeness (sibling agreement of the two arms)',
       'Also decided: the GUID binding hashes the subject name of the presented certificate. Also decided: each handshake entry point can succeed only from the state(s) in which its message is expected. Decides: every transition to CompletedWithFinalMessage* and every shared-secret computation lies behind the Ok continuations of the Identity-CA certificate check, the GUID '
       'binding check, the challenge echoes and the signature verification of that step; begin_handshake_reply verifies before accepting; no verification result is discarded; and '
-      'whether the state swapped out of the handshake machine is restored on every exit (it is not: known finding F10, demonstrated). X.509, ECDH and signature algorithms are assumed.',
+      'the state swapped out of the handshake machine is put back on every exit that a message not proven genuine can take, and what is put back is what was taken (F10, fixed df2800b); '
+      'every comparison of a received token field with a local value rejects on mismatch, the replier carries the hash(C1) it computed itself, and every value the pending state remembers and the '
+      'token echoes is compared (raised F16: dh1 echo unchecked, fixed ca6bdd5). X.509, ECDH and signature algorithms are assumed.',
       'rustc front end + MIR (security feature set); mirfacts; ring / x509 verification.',
       'DESIGN.md section 4 C19')
 
@@ -116,15 +119,15 @@ claim('C08', 'effect (who-may-remove), must-call and monotone-write rules on the
       'rustc front end + MIR (polymorphic bodies); mirfacts.',
       'DESIGN.md section 4 C08')
 
-claim('C14', 'provenance of header lengths, path-enumerated codec sequence agreement, controlling-condition comparison, interval reasoning over window constants, store-aware path evaluation with guard entailment, size polynomials of write_to paths vs len_serialized expressions with modulo-4 reasoning (all on MIR); parser-mirrors-writer and zero-length rule',
-      'Also decided: the DATA/DATAFRAG cursor parsers mirror the writers, the octetsToInlineQos literal matches the fields, and the zero-length rule covers exactly PAD and INFO_TS. Round-trip equality for all values is NOT decided. Decided: for every type with both, len_serialized() equals the bytes write_to emits for all presence combinations and element counts (raised F14, fixed); every SubmessageHeader.content_length is the length of the very body in the same Submessage or a literal equal to '
+claim('C14', 'byte-order provenance (E flag to serialisation context on both sides, flag-bit table), provenance of header lengths, path-enumerated codec sequence agreement, controlling-condition comparison, interval reasoning over window constants, store-aware path evaluation with guard entailment, size polynomials of write_to paths vs len_serialized expressions with modulo-4 reasoning (all on MIR); parser-mirrors-writer and zero-length rule',
+      'Also decided: every submessage body and separately serialised element is written and parsed under the byte order its own header flag announces (never the ambient context), and the flag helpers agree on bit 0x01. Also decided: the DATA/DATAFRAG cursor parsers mirror the writers, the octetsToInlineQos literal matches the fields, and the zero-length rule covers exactly PAD and INFO_TS. Round-trip equality for all values is NOT decided. Decided: for every type with both, len_serialized() equals the bytes write_to emits for all presence combinations and element counts (raised F14, fixed); every SubmessageHeader.content_length is the length of the very body in the same Submessage or a literal equal to '
       'the fixed size computed from the ADT table; the hand-written SequenceNumber / NumberSet / SubmessageHeader codecs write and read the same primitive sequence on every path; the '
       'InlineQos flag and inline_qos presence share one controlling condition and the DDSData variant table matches the reader\'s; from_base_and_set can never produce more bits than '
       'read_from accepts (256), and on every path of NumberSetIter::next/next_back to a result the comparisons passed entail index < rev_at_bit <= num_bits (no member outside the window).',
       'rustc front end + MIR; mirfacts; derived speedy codecs agree by construction; Data/DataFrag cursor parsers not covered by the sequence rule.',
       'DESIGN.md section 4 C14')
-claim('C15', 'table extraction from MIR (ParameterId constant, wire type argument, multiplicity from control shape) and table agreement; emission-condition classification; store-aware path evaluation of the pad arguments of hand-aligned value codecs; PID-to-field agreement, crossed-roles lint',
-      'Also decided: each parameter value lands in the field it was written from. Also decided: in the hand-aligned value codecs every pad length is the length of the value just read/written on every path (loops crossed), and no variable-length value lacks a following pad. Byte-level CDR of parameter values is NOT decided. Decided for SPDP participant data, SEDP reader/writer/topic data and QosPolicies in both feature configurations (about 140 '
+claim('C15', 'parameter-identity provenance (wire id to lookup key untransformed); table extraction from MIR (ParameterId constant, wire type argument, multiplicity from control shape) and table agreement; emission-condition classification; store-aware path evaluation of the pad arguments of hand-aligned value codecs; PID-to-field agreement, crossed-roles lint',
+      'Also decided: a parameter is filed and looked up under its full 16-bit id, untransformed from the wire to the map (a vendor-specific id can never alias a standard one). Also decided: each parameter value lands in the field it was written from. Also decided: in the hand-aligned value codecs every pad length is the length of the value just read/written on every path (loops crossed), and no variable-length value lacks a following pad. Byte-level CDR of parameter values is NOT decided. Decided for SPDP participant data, SEDP reader/writer/topic data and QosPolicies in both feature configurations (about 140 '
       'parameters each): every parameter written is read with the same wire type and compatible multiplicity and vice versa; whether a parameter is written depends only on presence / '
       'variant of its field, never on its value; absent optionals decode to the RTPS defaults; the parameter-list reader is id-agnostic up to the sentinel. Six write-only parameters '
       'of fields documented as not implemented are listed as known findings (F13, demonstrated).',
